@@ -19,7 +19,8 @@ fp("dask/array/backends.py", "_numel_masked")
 
 # C28
 fp("dask/array/random.py", "_spawn_bitgens", "_wrap_func", "_choice_validate_params", "_apply_random_func",
-   "_apply_random", "Generator.choice", "RandomState.choice", "default_rng")
+   "_apply_random", "Generator.choice", "RandomState.choice", "default_rng", "Generator.permutation",
+   "RandomState.permutation", "_shuffle", "_choice_rng", "_choice_rs", "Generator.integers", "RandomState.randint")
 fp("dask/utils.py", "random_state_data")
 
 # C31
